@@ -108,6 +108,25 @@ func c10Case(e *emitter, expr string, bucket string) {
 			return
 		}
 	}
+	// ... nor in batch mode (the plans run the FOLDED tree through ExecuteBatch)
+	fvals, fberr, fbpn := execBatch(folded, evalPairs, false)
+	if fbpn != "" {
+		rp.What = "panic in batch mode on the folded expression: " + fbpn
+		e.fail(idx, "evaluating the folded expression in batch mode panics", "C10/panic", rp)
+		return
+	}
+	if fberr == nil {
+		for i := range evalPairs {
+			if rowErr[i] {
+				continue // folding may remove a failing operand (C04 speaks of pairs on which the original evaluates)
+			}
+			if canonCol(fvals[i]) != rowCanon[i] {
+				rp.Key, rp.Val, rp.Row, rp.Bat = evalPairs[i][0], evalPairs[i][1], rowCanon[i], canonCol(fvals[i])
+				e.fail(idx, "batch evaluation of the folded expression gives a different value than row evaluation", "C10/folded-batch", rp)
+				return
+			}
+		}
+	}
 }
 
 func runC10(c *runCtx) error {
@@ -139,6 +158,14 @@ func runC10(c *runCtx) error {
 				c10Case(e, fmt.Sprintf("substr(%s, %s, %s)", t, a, b), "fn=substr")
 			}
 		}
+		// positions given as constant expressions: the folder turns them into literals no query
+		// text can spell (negative numbers); every mode must treat them like the computed value
+		for _, a := range []string{"0 - 3", "1 - 2", "2 - 1", "0 - int(value)"} {
+			for _, b := range []string{"2", "0 - 1", "5 - 2"} {
+				c10Case(e, fmt.Sprintf("substr(%s, %s, %s)", t, a, b), "fn=substr/computed-position")
+			}
+		}
+		c10Case(e, fmt.Sprintf("substr(%s, 1, 0 - 2)", t), "fn=substr/computed-position")
 	}
 	for _, i := range ints {
 		for _, f := range []string{"str", "int", "float", "is_int", "is_float", "strlen"} {
